@@ -57,11 +57,20 @@ def foreign_constant(name):
     return obj
 
 
+def _proper_list(t):
+    out = []
+    while t["t"] == "c" and t["n"] == "." and len(t["a"]) == 2:
+        out.append(t["a"][0]); t = t["a"][1]
+    return out if t == {"t": "a", "n": "[]"} else None
+
+
 def build(yp, t, env):
     k = t["t"]
     if k == "a":
         if FOREIGN and t["n"] not in ("[]", "true", "fail"):
             return foreign_constant(t["n"])
+        if t["n"] == "[]" and len(env) % 2 == 0:
+            return yp.ATOM_NIL          # the documented empty list object (what makelist and compiled `[]` use)
         return yp.atom(t["n"])
     if k == "i":
         return int(t["n"])
@@ -69,6 +78,10 @@ def build(yp, t, env):
         if t["id"] not in env:
             env[t["id"]] = yp.variable()
         return env[t["id"]]
+    if t["n"] == "." and len(t["a"]) == 2 and (len(t["a"]) + len(env)) % 4 == 1:
+        elems = _proper_list(t)
+        if elems is not None:
+            return yp.makelist([build(yp, a, env) for a in elems])
     args = [build(yp, a, env) for a in t["a"]]
     # exercise every public term constructor: functor1/2/3 are documented as equivalent to functor,
     # listpair/makelist to the "." functor
@@ -223,8 +236,11 @@ def make_native(yp, op, nstate):
     if kind != "custom":
         # an ordinary exception type raised inside the predicate body; it must reach the consumer
         # as this very object
+        # (the TypeError carries the text CPython uses for a call with too few arguments, as when a helper
+        # inside the predicate is called wrongly)
+        msg = "helper() missing 1 required positional argument: 'x'" if kind == "TypeError" else "raised inside the predicate %s" % fid
         nstate.boom_by_fid[fid] = {"TypeError": TypeError, "ValueError": ValueError, "KeyError": KeyError,
-                                   "RuntimeError": RuntimeError, "StopIteration": RuntimeError}[kind]("raised inside the predicate %s" % fid)
+                                   "RuntimeError": RuntimeError, "StopIteration": RuntimeError}[kind](msg)
 
     def body(args):
         nstate.calls[fid] = nstate.calls.get(fid, 0) + 1
@@ -255,7 +271,7 @@ def make_native(yp, op, nstate):
     # the kinds of callable an application registers: a plain generator function, one behind a decorator that
     # uses functools.wraps, a bound method, a functools.partial, an object with __call__ (the arity inferred
     # by register_function is that of the signature in every case)
-    kinds = ("plain", "wrapped", "method", "partial", "object")
+    kinds = ("plain", "wrapped", "method", "partial", "object", "falsy-object")
     kind = op.get("ckind") or (kinds[(sum(map(ord, fid)) + arity) % len(kinds)] if style == "inferred" else "plain")
     if kind == "wrapped":
         import functools
@@ -274,11 +290,62 @@ def make_native(yp, op, nstate):
         import functools
         exec("def g(tag, %s):\n    yield from body([%s])\n" % (params, params) if arity else "def g(tag):\n    yield from body([])\n", ns)
         return functools.partial(ns["g"], "tag")
+    if kind == "falsy-object":
+        # a callable that is falsy (a row-backed relation that is empty, a counter): it is registered all the same
+        exec("class O:\n    def __len__(self):\n        return 0\n    def __call__(self, %s):\n        yield from body([%s])\n" % (params, params) if arity else
+             "class O:\n    def __len__(self):\n        return 0\n    def __call__(self):\n        yield from body([])\n", ns)
+        return ns["O"]()
     if kind == "object":
         exec("class O:\n    def __call__(self, %s):\n        yield from body([%s])\n" % (params, params) if arity else
              "class O:\n    def __call__(self):\n        yield from body([])\n", ns)
         return ns["O"]()
     return f
+
+
+def collide(code_a, code_b):
+    """two script texts (code_a, code_b each followed by a comment line) of the same length and the same CRC-32:
+    what a cache of loaded scripts keyed by name, size and checksum cannot tell apart.  CRC-32 is affine over
+    GF(2): 64 positions of the second comment choose between two letters, a linear system picks them."""
+    import zlib
+    a, b = code_a.encode("utf-8"), code_b.encode("utf-8")
+    n = max(len(a), len(b)) + 80
+    a2 = a + b"#" + b"a" * (n - len(a) - 2) + b"\n"
+    base = bytearray(b + b"#" + b"a" * (n - len(b) - 2) + b"\n")
+    pos = list(range(n - 66, n - 2))
+    c0 = zlib.crc32(bytes(base))
+    want = c0 ^ zlib.crc32(a2)
+    vecs = []
+    for p_ in pos:
+        m = bytearray(base)
+        m[p_] ^= 0x03          # 'a' <-> 'b'
+        vecs.append(zlib.crc32(bytes(m)) ^ c0)
+    # Gaussian elimination, remembering which positions each reduced vector combines
+    basis = {}
+    for i, v in enumerate(vecs):
+        comb = 1 << i
+        while v:
+            h = v.bit_length() - 1
+            if h not in basis:
+                basis[h] = (v, comb)
+                break
+            bv, bc = basis[h]
+            v ^= bv
+            comb ^= bc
+    comb = 0
+    w = want
+    while w:
+        h = w.bit_length() - 1
+        if h not in basis:
+            return None
+        bv, bc = basis[h]
+        w ^= bv
+        comb ^= bc
+    for i, p_ in enumerate(pos):
+        if comb >> i & 1:
+            base[p_] ^= 0x03
+    b2 = bytes(base)
+    assert len(a2) == len(b2) and zlib.crc32(a2) == zlib.crc32(b2) and a2 != b2
+    return a2.decode("utf-8"), b2.decode("utf-8")
 
 
 # ---------------------------------------------------------------- executing a behaviour
@@ -313,6 +380,15 @@ class Runner:
             lg.addHandler(self.log_handler)
             lg.setLevel(logging.DEBUG)
             lg.propagate = False
+        import sys as _sys
+        self.base_limit = _sys.getrecursionlimit()
+        if self.opts.get("reclimit"):
+            # small scenarios under the interpreter's default limit: a change of the limit by the code is visible
+            self.prev_limit = self.base_limit
+            _sys.setrecursionlimit(self.opts["reclimit"])
+            self.base_limit = self.opts["reclimit"]
+        self.pool = []          # Variable objects of queries that have ended (opts reuse_vars: the consumer uses them again)
+        self.name_atoms = {}    # opts keep_name_atoms: predicate-name atoms the consumer created once and keeps using
         self.yps = [YP() for _ in range(scn.get("engines", 1))]
         self.q = {}        # run id -> [generator] (a list so that the reference can be dropped)
         self.qv = {}       # run id -> query variables
@@ -326,9 +402,21 @@ class Runner:
         self.texts[name] = src
         return compile_text(src)
 
+    def name_atom(self, yp, name):
+        if not self.opts.get("keep_name_atoms"):
+            return yp.atom(name)
+        key = (id(yp), name)
+        if key not in self.name_atoms:
+            self.name_atoms[key] = yp.atom(name)
+        return self.name_atoms[key]
+
     def start_query(self, op):
         yp = self.yps[op["e"] - 1]
         env = {}
+        if self.opts.get("reuse_vars"):
+            for i, v in enumerate(self.pool[:op["qnv"]]):
+                if not v._is_bound:
+                    env[i] = v
         vs = [build(yp, T.V(i), env) for i in range(op["qnv"])]
         goal = op["goal"]
         args = [build(yp, a, env) for a in goal.get("a", [])]
@@ -390,6 +478,7 @@ class Runner:
             # a list built with makelist from the query variables at an EARLIER answer holds the variables
             # themselves: it must show this answer's bindings now
             yp = self.yps[0]
+            recent = self.built.get(r, [])[-3:]
             for lst in self.built.get(r, []):
                 elems = []
                 x = walk(lst)
@@ -398,6 +487,15 @@ class Runner:
                     x = walk(x._args[1])
                 if project_tuple(elems) != o["ans"]:
                     o["makelist_stale"] = {"list_now": project_tuple(elems), "answer": o["ans"]}
+                elif any(lst is x for x in recent):
+                    # ... also when read through to_python (the list object itself is kept by the consumer)
+                    try:
+                        pl = engine.to_python(lst)
+                        want = [engine.to_python(v) for v in self.qv[r]]
+                        if isinstance(pl, list) and py_image(pl) != py_image(want):
+                            o["makelist_stale"] = {"to_python_of_the_list_now": py_image(pl), "to_python_of_the_variables": py_image(want)}
+                    except Exception:
+                        pass
             if self.qv[r]:
                 self.built.setdefault(r, []).append(yp.makelist(list(self.qv[r])))
         return o
@@ -405,7 +503,9 @@ class Runner:
     def check_saved(self, r):
         """C15: values saved at the answers must still denote the same (ground) terms now"""
         bad = []
-        for gv, ans, py in self.saved.get(r, [])[:8]:
+        if self.opts.get("reuse_vars") and r in self.qv:
+            self.pool = list(self.qv[r]) + [v for v in self.pool if not any(v is w for w in self.qv[r])]
+        for gv, ans, py in ([] if self.opts.get("reuse_vars") else self.saved.get(r, [])[:8]):
             # C13: the run has ended, so what it returned can only contain variables of this run or of
             # finished uses of stored facts; nobody may bind those any more
             if len(self.frozen) < 40:
@@ -506,6 +606,10 @@ class Runner:
                 changed = sorted(k2 for k2 in set(before) | set(after) if before.get(k2, self) is not after.get(k2, self))
                 return {"k": "load-raised", "changed": changed, "exc": type(e).__name__}
             return {"k": "ok"}
+        if k == "load" and op.get("collide"):
+            pair = collide(self.script_code(op["collide"][0]), self.script_code(op["collide"][1]))
+            self.yps[op["e"] - 1].load_script_from_string(pair[op["collide"].index(op["script"])], overwrite=op["ow"])
+            return {"k": "ok"}
         if k == "load":
             code = self.script_code(op["script"])
             if self.opts.get("via_file"):
@@ -550,7 +654,7 @@ class Runner:
                 env = {i: v for i, v in enumerate(self.qv[op["r"]])}
             t = op["term"]
             args = [build(yp, a, env) for a in t.get("a", [])]
-            yp.assert_fact(yp.atom(t["n"]), args, op["atEnd"])
+            yp.assert_fact(self.name_atom(yp, t["n"]), args, op["atEnd"])
             return {"k": "ok"}
         if k == "assertn":
             yp = self.yps[op["e"] - 1]
@@ -654,6 +758,9 @@ class Runner:
                 except Exception:
                     pass
         self.q.clear()
+        if self.opts.get("reclimit"):
+            import sys as _sys
+            _sys.setrecursionlimit(self.prev_limit)
         global FOREIGN
         FOREIGN = False
         if self.log_handler is not None:
